@@ -199,6 +199,15 @@ def configs(tier, seed):
                             dict(kind='grad', method=method, pad=pad, shape=list(shp))))
                 out.append(('div/%s/%s/shape=%s' % (method, pad, sid),
                             dict(kind='div', method=method, pad=pad, shape=list(shp))))
+    for pad in ('order1', 'order2'):
+        out.append(('lap/%s/shape=4/refused-or-stencil' % pad, dict(kind='lap', method='forward', pad=pad, shape=[4])))
+    # operators on grids with nodes on the boundary: the step is the real cell side
+    for method in METHODS:
+        for pad in ('constant', 'order1', 'periodic'):
+            out.append(('pd/%s/%s/shape=4/nodes_on_bdry' % (method, pad),
+                        dict(kind='pd-nob', method=method, pad=pad, shape=[4])))
+            out.append(('pd/%s/%s/shape=3x4/nodes_on_bdry' % (method, pad),
+                        dict(kind='pd-nob', method=method, pad=pad, shape=[3, 4])))
     for pad in ('constant', 'symmetric', 'symmetric_adjoint', 'periodic', 'order0', 'order0_adjoint'):
         for shp in ([(3,), (2, 3), (2, 3, 2)] if tier == 'quick' else
                     [(2,), (3,), (4,), (5,), (2, 3), (3, 3), (3, 4), (2, 3, 2)]):
@@ -348,6 +357,27 @@ def case(ctx, kind, method, pad, shape, axis=0, dx=1.0, dtype='float64'):
         stencil('stencil-inplace', out, mk)
         return
 
+    if kind == 'pd-nob':
+        # nodes on the boundary: n nodes span the extent, the cell side is extent / (n - 1)
+        sides = [0.5, 0.25][:ndim]
+        space = odl.uniform_discr([0.0] * ndim, [(n - 1) * s_ for n, s_ in zip(shape, sides)], shape,
+                                  nodes_on_bdry=True)
+        ctx.fact('cell-sides-as-constructed', np.allclose(space.cell_sides, sides))
+        for ax in range(ndim):
+            c = ctx.real('c%d' % ax) if pad == 'constant' else 0
+            x = ctx.element(space, 'x%d' % ax)
+            pre = ctx.snapshot(x).reshape(shape)
+
+            def mk(v, ax=ax, pre=pre, c=c):
+                return apply_ref(pre, ax, sides[ax], method, pad, c, v)
+            op = odl.PartialDerivative(space, axis=ax, method=method, pad_mode=pad, pad_const=c)
+            stencil('stencil/axis%d' % ax, op(x), mk, canary=True)
+        c = ctx.real('cg') if pad == 'constant' else 0
+        xg = ctx.element(space, 'xg')
+        preg = ctx.snapshot(xg).reshape(shape)
+        stencil('gradient-stencil', odl.Gradient(space, method=method, pad_mode=pad, pad_const=c)(xg),
+                lambda v: [apply_ref(preg, ax, sides[ax], method, pad, c, v) for ax in range(ndim)])
+        return
     space, sides = _space(shape)
     if kind == 'pd':
         for ax in range(ndim):
@@ -421,7 +451,12 @@ def case(ctx, kind, method, pad, shape, axis=0, dx=1.0, dtype='float64'):
         return
     if kind == 'lap':
         c = ctx.real('c') if pad == 'constant' else 0
-        op = odl.Laplacian(space, pad_mode=pad, pad_const=c)
+        try:
+            op = odl.Laplacian(space, pad_mode=pad, pad_const=c)
+        except ValueError:
+            # a padding the Laplacian does not offer is refused at construction
+            ctx.fact('padding-refused', pad in ('order1', 'order2', 'order1_adjoint', 'order2_adjoint'))
+            return
         x = ctx.element(space, 'x')
         pre = ctx.snapshot(x).reshape(shape)
 
